@@ -238,6 +238,9 @@ AckCarries == \A k \in 1..Len(out) : out[k].t = "ACK" =>
                   (out[k].pid = Pid /\ out[k].time <= now /\ out[k].fd = (IF Synack THEN "syn" ELSE "none"))
 ResultOnlyAfterAccept == \A k \in 1..Len(out) : out[k].t = "READY" =>
         \E a \in 1..(k - 1) : out[a].t = "ACK" /\ out[a].j = out[k].j
+(* whatever way a task ends, the job it belongs to gets its result message *)
+RunHasResult == \A i \in 1..Len(executed) : (i < Len(executed) \/ pc # "run") =>
+                    \E k \in 1..Len(out) : out[k].t = "READY" /\ out[k].j = executed[i]
 (* NACK honoured *)
 Executed == {executed[i] : i \in 1..Len(executed)}
 NackHonoured == /\ \A j \in nacked : j \notin Executed
